@@ -1,3 +1,407 @@
-pub fn main(_ctx: &vcore::Ctx) {
-    std::process::exit(2)
+//! C31: the DDS worker never asks the timer for more than one poke period (50 ms), and a blocked
+//! write with a finite max_blocking_time returns Timeout within max_blocking_time + 50 ms.
+//!
+//! Observation: every duration dust-dds passes to `Timer::delay` (recorded with its virtual instant).
+//! Scenarios: a writer (participant A) and a reader (participant B) with generated deadline, lifespan,
+//! history depth, max_blocking_time and participant announcement interval; operations are writes
+//! (optionally with a source timestamp in the past), disposes, mail-free pauses placed around the
+//! deadline / lifespan / lease instants, and partitioning of the reader's participant (so that
+//! reliable KEEP_LAST writes block because acknowledgements never arrive).
+
+use dust_dds::{
+    configuration::DustDdsConfigurationBuilder,
+    infrastructure::{
+        error::DdsError,
+        listener::NO_LISTENER,
+        qos::{DataReaderQos, DataWriterQos, QosKind},
+        qos_policy::{
+            DeadlineQosPolicy, HistoryQosPolicy, HistoryQosPolicyKind, LifespanQosPolicy,
+            ReliabilityQosPolicy, ReliabilityQosPolicyKind,
+        },
+        status::NO_STATUS,
+        time::DurationKind,
+    },
+};
+use proptest::prelude::*;
+use serde::{Deserialize, Serialize};
+use serde_json::json;
+use sim::{
+    case::{CaseResult, apply_abort, sim_stats},
+    exec::{self, with_world},
+    props::{Campaign, campaign},
+    types::KeyedData,
+    util::{Timed, dk_ms, timeout, wait_until},
+};
+use vcore::{Ctx, Meta, fork::Limits};
+
+use crate::common::{MS, POKE_NS, TICK, choose_verdict, factory_with, time_of_ns};
+
+const LEASE_MS: u64 = 100_000;
+/// executor step slack on top of the bounds of the statement
+const EPS_NS: u64 = MS;
+
+#[derive(Clone, Debug, Serialize, Deserialize)]
+pub enum Op {
+    /// back_ms: source timestamp that many ms in the past (write_w_timestamp); None = write()
+    Write { inst: u8, back_ms: Option<u32> },
+    Dispose { inst: u8 },
+    /// mail-free pause of the application
+    Pause { ms: u32 },
+    /// connect / disconnect the reader's participant from the network
+    Partition { connected: bool },
+}
+
+#[derive(Clone, Debug, Serialize, Deserialize)]
+pub struct C31Case {
+    pub ann_ms: u32,
+    /// offered / requested deadline in units of 100 ms
+    pub w_deadline: Option<u16>,
+    pub r_deadline: Option<u16>,
+    pub lifespan_ms: Option<u32>,
+    /// KEEP_LAST depth of the writer (None = KEEP_ALL)
+    pub depth: Option<u8>,
+    pub mbt_ms: u32,
+    pub ops: Vec<Op>,
+}
+
+pub fn strategy(thorough: bool) -> BoxedStrategy<C31Case> {
+    let max_ops = if thorough { 24 } else { 12 };
+    let ann = prop_oneof![
+        3 => Just(5_000u32),
+        1 => Just(50u32),
+        1 => Just(70u32),
+        1 => Just(120u32),
+        1 => Just(1_000u32),
+        1 => Just(30_000u32),
+    ];
+    let deadline = prop::option::weighted(0.6, 2u16..=20);
+    let lifespan = prop::option::weighted(0.4, prop_oneof![Just(40u32), Just(100), Just(250), 30u32..1500]);
+    let depth = prop::option::weighted(0.7, 1u8..=2);
+    let mbt = prop_oneof![Just(50u32), Just(100), Just(175), Just(500), Just(2000), 50u32..2000];
+    (ann, deadline, any::<bool>(), 0u16..4, lifespan, depth, mbt)
+        .prop_flat_map(move |(ann_ms, w_deadline, r_has, r_extra, lifespan_ms, depth, mbt_ms)| {
+            let r_deadline = match (w_deadline, r_has) {
+                (Some(p), true) => Some((p + r_extra).min(20)),
+                _ => None,
+            };
+            // pauses placed around the instants at which something becomes due
+            let mut marks: Vec<u32> = vec![1, 10, 49, 50, 51, 100, 700];
+            for p in [w_deadline, r_deadline].into_iter().flatten() {
+                let p = p as u32 * 100;
+                marks.extend([p - 51, p - 1, p, p + 1, p + 49, p + 60, 2 * p + 10, 3 * p + 30]);
+            }
+            if let Some(l) = lifespan_ms {
+                marks.extend([l.saturating_sub(1).max(1), l, l + 1, l + 60]);
+            }
+            marks.extend([mbt_ms, mbt_ms + 60, ann_ms.min(6_000) + 10]);
+            let pause = prop_oneof![
+                6 => prop::sample::select(marks).prop_map(|ms| Op::Pause { ms }),
+                2 => (1u32..3_000).prop_map(|ms| Op::Pause { ms }),
+            ];
+            let back = {
+                let mut b: Vec<u32> = vec![1, 30, 1_000, 10_000];
+                if let Some(p) = w_deadline {
+                    let p = p as u32 * 100;
+                    b.extend([p - 1, p, p + 1, 2 * p + 5, 3 * p]);
+                }
+                if let Some(l) = lifespan_ms {
+                    b.extend([l.saturating_sub(1).max(1), l, l + 1]);
+                }
+                let w = if std::env::var("C31_NO_PAST").is_ok() { 0.0001 } else { 0.35 };
+                prop::option::weighted(w, prop::sample::select(b))
+            };
+            let op = prop_oneof![
+                8 => (0u8..2, back).prop_map(|(inst, back_ms)| Op::Write { inst, back_ms }),
+                1 => (0u8..2).prop_map(|inst| Op::Dispose { inst }),
+                6 => pause,
+                2 => any::<bool>().prop_map(|connected| Op::Partition { connected }),
+            ];
+            // rare: a partition that outlasts the 100 s participant lease
+            let lease = prop::bool::weighted(0.03);
+            (
+                Just((ann_ms, w_deadline, r_deadline, lifespan_ms, depth, mbt_ms)),
+                prop::collection::vec(op, 1..=max_ops),
+                lease,
+            )
+        })
+        .prop_map(|((ann_ms, w_deadline, r_deadline, lifespan_ms, depth, mbt_ms), mut ops, lease)| {
+            if lease {
+                let at = ops.len() / 2;
+                ops.insert(at, Op::Partition { connected: false });
+                ops.insert(at + 1, Op::Pause { ms: LEASE_MS as u32 + 20 });
+                ops.insert(at + 2, Op::Pause { ms: 40 });
+            }
+            C31Case { ann_ms, w_deadline, r_deadline, lifespan_ms, depth, mbt_ms, ops }
+        })
+        .boxed()
+}
+
+#[derive(Clone, Debug, Serialize, Deserialize)]
+pub struct WriteRec {
+    pub op: usize,
+    pub start_ns: u64,
+    pub end_ns: u64,
+    /// "ok", "timeout", "never" (harness gave up after max_blocking_time + 5 s) or another error
+    pub result: String,
+}
+
+#[derive(Clone, Debug, Default, Serialize, Deserialize)]
+pub struct Hist {
+    pub setup_error: Option<String>,
+    pub t_start: u64,
+    pub writes: Vec<WriteRec>,
+    pub delays: Vec<(u64, u64)>,
+}
+
+async fn scenario(c: C31Case) -> Hist {
+    let mut h = Hist::default();
+    let cfg = DustDdsConfigurationBuilder::new()
+        .participant_announcement_interval(core::time::Duration::from_millis(c.ann_ms as u64))
+        .build()
+        .unwrap();
+    let f = factory_with(cfg);
+    h.t_start = exec::now_ns();
+    let rel = ReliabilityQosPolicy { kind: ReliabilityQosPolicyKind::Reliable, max_blocking_time: dk_ms(c.mbt_ms as u64) };
+    let dl = |d: Option<u16>| DeadlineQosPolicy { period: d.map(|p| dk_ms(p as u64 * 100)).unwrap_or(DurationKind::Infinite) };
+    let pa = f.create_participant(0, QosKind::Default, NO_LISTENER, NO_STATUS).await.unwrap();
+    let ta = pa.create_topic::<KeyedData>("T", "KeyedData", QosKind::Default, NO_LISTENER, NO_STATUS).await.unwrap();
+    let publ = pa.create_publisher(QosKind::Default, NO_LISTENER, NO_STATUS).await.unwrap();
+    let wq = DataWriterQos {
+        reliability: rel.clone(),
+        history: HistoryQosPolicy { kind: c.depth.map(|d| HistoryQosPolicyKind::KeepLast(d as u32)).unwrap_or(HistoryQosPolicyKind::KeepAll) },
+        deadline: dl(c.w_deadline),
+        lifespan: LifespanQosPolicy { duration: c.lifespan_ms.map(|l| dk_ms(l as u64)).unwrap_or(DurationKind::Infinite) },
+        ..Default::default()
+    };
+    let writer = match publ.create_datawriter::<KeyedData>(&ta, QosKind::Specific(wq), NO_LISTENER, NO_STATUS).await {
+        Ok(w) => w,
+        Err(e) => {
+            h.setup_error = Some(format!("create_datawriter: {e:?}"));
+            return h;
+        }
+    };
+    let pb = f.create_participant(0, QosKind::Default, NO_LISTENER, NO_STATUS).await.unwrap();
+    let tb = pb.create_topic::<KeyedData>("T", "KeyedData", QosKind::Default, NO_LISTENER, NO_STATUS).await.unwrap();
+    let sub = pb.create_subscriber(QosKind::Default, NO_LISTENER, NO_STATUS).await.unwrap();
+    let rq = DataReaderQos {
+        reliability: rel,
+        history: HistoryQosPolicy { kind: HistoryQosPolicyKind::KeepAll },
+        deadline: dl(c.r_deadline),
+        ..Default::default()
+    };
+    let reader = match sub.create_datareader::<KeyedData>(&tb, QosKind::Specific(rq), NO_LISTENER, NO_STATUS).await {
+        Ok(r) => r,
+        Err(e) => {
+            h.setup_error = Some(format!("create_datareader: {e:?}"));
+            return h;
+        }
+    };
+    let matched = wait_until(20_000, 10, || async {
+        writer.get_publication_matched_status().await.map(|s| s.current_count == 1).unwrap_or(false)
+            && reader.get_subscription_matched_status().await.map(|s| s.current_count == 1).unwrap_or(false)
+    })
+    .await;
+    if !matched {
+        h.setup_error = Some("writer and reader did not match within 20 s".into());
+        return h;
+    }
+    let mut seq = 0u32;
+    for (i, op) in c.ops.iter().enumerate() {
+        match op {
+            Op::Pause { ms } => exec::sleep_ms(*ms as u64).await,
+            Op::Partition { connected } => with_world(|w| w.net.endpoints[1].connected = *connected),
+            Op::Dispose { inst } => {
+                let _ = timeout(c.mbt_ms as u64 + 5_000, writer.dispose(KeyedData { id: *inst, seq: 0, blob: vec![] }, None)).await;
+            }
+            Op::Write { inst, back_ms } => {
+                seq += 1;
+                let data = KeyedData { id: *inst, seq, blob: vec![1, 2, 3] };
+                let start = exec::now_ns();
+                let r = match back_ms {
+                    None => timeout(c.mbt_ms as u64 + 5_000, writer.write(data, None)).await,
+                    Some(b) => {
+                        let ts = (start - *b as u64 * MS) / TICK * TICK;
+                        timeout(c.mbt_ms as u64 + 5_000, writer.write_w_timestamp(data, None, time_of_ns(ts))).await
+                    }
+                };
+                let result = match r {
+                    Timed::Done(Ok(())) => "ok".to_string(),
+                    Timed::Done(Err(DdsError::Timeout)) => "timeout".to_string(),
+                    Timed::Done(Err(e)) => format!("{e:?}"),
+                    Timed::TimedOut => "never".to_string(),
+                };
+                h.writes.push(WriteRec { op: i, start_ns: start, end_ns: exec::now_ns(), result });
+            }
+        }
+    }
+    // a few more worker iterations after the last operation
+    exec::sleep_ms(120).await;
+    h.delays = with_world(|w| w.dds_delays.clone());
+    drop((pa, pb, ta, tb, publ, sub, reader));
+    h
+}
+
+fn oracle(c: &C31Case, h: &Hist, res: &mut CaseResult) {
+    if let Some(e) = &h.setup_error {
+        res.harness_error = Some(e.clone());
+        return;
+    }
+    let rel = |t: u64| (t as i64 - h.t_start as i64) / MS as i64;
+    let mut fails: Vec<(String, String)> = vec![];
+    // ---- every requested delay is at most one poke period
+    if let Some((t, d)) = h.delays.iter().filter(|d| d.1 > POKE_NS).min_by_key(|d| d.0) {
+        let huge = *d >= 1_000_000_000_000_000_000;
+        let n = h.delays.iter().filter(|d| d.1 > POKE_NS).count();
+        fails.push((
+            format!("C31:oversleep:{}", if huge { "negative-time-until" } else { "above-poke-period" }),
+            format!(
+                "at {} ms after start the DDS worker asked the timer for a delay of {} (poke period is 50 ms){}; {} such requests in this case; QoS: offered deadline {:?} x100 ms, requested deadline {:?} x100 ms, lifespan {:?} ms, history depth {:?}, announcement interval {} ms",
+                rel(*t),
+                if huge { format!("{:.3e} s", *d as f64 / 1e9) } else { format!("{} ms", d / MS) },
+                if huge { " - a negative time-until-next-event converted to an unsigned duration" } else { "" },
+                n,
+                c.w_deadline, c.r_deadline, c.lifespan_ms, c.depth, c.ann_ms
+            ),
+        ));
+    }
+    // ---- blocked writes
+    let mbt = c.mbt_ms as u64 * MS;
+    let mut blocked = false;
+    for w in &h.writes {
+        let dur = w.end_ns - w.start_ns;
+        if dur > 0 {
+            blocked = true;
+        }
+        let what = |s: &str| format!("write (op #{}) started at {} ms with max_blocking_time {} ms {s}", w.op, rel(w.start_ns), c.mbt_ms);
+        // a write that is late because the worker was in an over-long sleep is the oversleep finding, not a second one
+        let asleep = h.delays.iter().any(|d| d.1 > POKE_NS && d.0 <= w.start_ns + mbt + POKE_NS && d.0.saturating_add(d.1) > w.start_ns + mbt + POKE_NS);
+        if asleep && dur > mbt + POKE_NS + EPS_NS {
+            res.class("write_late_because_worker_overslept");
+            continue;
+        }
+        match w.result.as_str() {
+            "never" => fails.push(("C31:blocked-write:never-returned".into(), what("had not returned 5 s after max_blocking_time"))),
+            "timeout" => {
+                if dur < mbt {
+                    fails.push(("C31:blocked-write:timeout-too-early".into(), what(&format!("returned Timeout after only {} ms", dur / MS))));
+                } else if dur > mbt + POKE_NS + EPS_NS {
+                    fails.push(("C31:blocked-write:timeout-too-late".into(), what(&format!("returned Timeout after {} ms (> max_blocking_time + 50 ms)", dur / MS))));
+                }
+            }
+            "ok" => {
+                if dur > mbt + POKE_NS + EPS_NS {
+                    fails.push(("C31:blocked-write:returned-late".into(), what(&format!("returned Ok after {} ms (> max_blocking_time + 50 ms)", dur / MS))));
+                }
+            }
+            other => fails.push((
+                "C31:blocked-write:unexpected-error".into(),
+                what(&format!("failed with {}", other.chars().take(80).collect::<String>())),
+            )),
+        }
+    }
+    // ---- classification: which events can be overdue when the worker computes its next sleep
+    let mut overdue = false;
+    let mut wrote = false;
+    let mut connected = true;
+    let mut disconnected_ms = 0u64;
+    for op in &c.ops {
+        match op {
+            Op::Write { back_ms, .. } => {
+                wrote = true;
+                if let (Some(b), Some(p)) = (back_ms, c.w_deadline) {
+                    if *b as u64 >= p as u64 * 100 {
+                        res.class("write_timestamp_older_than_deadline");
+                        overdue = true;
+                    }
+                }
+                if let (Some(b), Some(l)) = (back_ms, c.lifespan_ms) {
+                    if *b >= l {
+                        res.class("write_timestamp_older_than_lifespan");
+                        overdue = true;
+                    }
+                }
+            }
+            Op::Pause { ms } => {
+                if wrote {
+                    for p in [c.w_deadline, c.r_deadline].into_iter().flatten() {
+                        if *ms as u64 >= p as u64 * 100 {
+                            res.class("pause_crosses_deadline");
+                            overdue = true;
+                        }
+                    }
+                    if let Some(l) = c.lifespan_ms {
+                        if *ms >= l {
+                            res.class("pause_crosses_lifespan");
+                            overdue = true;
+                        }
+                    }
+                }
+                if *ms >= c.ann_ms {
+                    res.class("pause_crosses_announcement");
+                }
+                if !connected {
+                    disconnected_ms += *ms as u64;
+                    if disconnected_ms >= LEASE_MS {
+                        res.class("lease_expiry");
+                        overdue = true;
+                    }
+                }
+            }
+            Op::Partition { connected: c2 } => {
+                connected = *c2;
+                if connected {
+                    disconnected_ms = 0;
+                } else {
+                    res.class("partition");
+                }
+            }
+            Op::Dispose { .. } => {}
+        }
+    }
+    if blocked {
+        res.class("write_blocked");
+    }
+    if h.writes.iter().any(|w| w.result == "timeout") {
+        res.class("write_timeout");
+    }
+    res.nontrivial = overdue || blocked;
+    res.info = json!({
+        "delays": h.delays.len(),
+        "max_delay_ms": h.delays.iter().map(|d| d.1).max().unwrap_or(0) / MS,
+        "writes": h.writes.iter().map(|w| json!({"op": w.op, "start_ms": rel(w.start_ns), "dur_ms": (w.end_ns - w.start_ns) / MS, "result": w.result})).collect::<Vec<_>>(),
+    });
+    choose_verdict("C31", res, fails);
+}
+
+pub fn eval(case: &C31Case) -> CaseResult {
+    let mut res = CaseResult::default();
+    match exec::run(scenario(case.clone())) {
+        Ok(h) => oracle(case, &h, &mut res),
+        Err(a) => apply_abort("C31", &mut res, a),
+    }
+    res.sim = sim_stats();
+    res
+}
+
+pub fn main(ctx: &Ctx) {
+    let thorough = ctx.tier == vcore::Tier::Thorough;
+    campaign(
+        ctx,
+        Campaign {
+            total_cases: ctx.pick(1_200, 40_000),
+            max_shrink_iters: 200,
+            limits: Limits { cpu_s: 30, wall_s: 120, as_bytes: 4 << 30 },
+            meta: Meta {
+                rule: "writer + reader in two participants; generated offered/requested deadline (200 ms..2 s), writer lifespan, KEEP_LAST depth 1-2 or KEEP_ALL, max_blocking_time 50 ms..2 s, announcement interval 50 ms..30 s; ops: write / write_w_timestamp in the past / dispose / mail-free pauses around the deadline, lifespan, announcement and lease instants / partition of the reader participant (reliable KEEP_LAST writes block); every Timer::delay request of dust-dds is recorded; non-trivial = the scenario makes some time_until_* event due or overdue (source timestamp older than deadline or lifespan, pause crossing a deadline / lifespan / lease instant) or a write blocked; distinct = hash of the case",
+                assumptions: &[
+                    "every duration requested from the runtime timer by dust-dds is a worker sleep (the worker is the only user of Timer::delay in these scenarios)",
+                    "a write's blocking time is measured in virtual time from the call to its return; 1 ms slack on top of max_blocking_time + 50 ms",
+                    "Timer::delay(0) takes 1 ns of virtual time in this engine (see sim_status/src/common.rs); the recorded value is the requested one",
+                ],
+                nontrivial_floor: 100,
+            },
+        },
+        strategy(thorough),
+        eval,
+    );
 }
